@@ -41,14 +41,14 @@ Step(e) ==
     [] e.op = "zoned" ->
          \* instant rendered in a zone: the offset is the wall offset of the zone interval containing the instant
          LET iv == [start |-> e.iv.start, end |-> e.iv.end, name |-> "", wall |-> e.iv.wall, std |-> 0, sav |-> 0] IN
-         /\ Check(Contains(iv, e.inst), "machinery_interval_contains_instant")
+         /\ Check(Contains(iv, e.inst), "zone_interval_used_for_the_offset_contains_the_instant")
          /\ Check(~Has(e, "exc"), "in_zone_must_not_raise")
          /\ (Has(e, "res") => Check(Consistent(e.res) /\ Same(e.res, Mk(e.inst, e.iv.wall, e.cal)) /\ e.res_zone = e.zone,
                                     "zoned_offset_is_rederived_from_zone_and_zone_calendar_retained"))
     [] e.op = "zoned_ctor" ->
          \* building a zoned value from (local, zone, offset): accepted exactly when the zone's offset at local - offset is that offset
          LET iv == [start |-> e.iv.start, end |-> e.iv.end, name |-> "", wall |-> e.iv.wall, std |-> 0, sav |-> 0] IN
-         /\ Check(Contains(iv, e.cand) /\ e.cand = Sub3(e.loc, OfSeconds(e.off)), "machinery_interval_contains_instant")
+         /\ Check(Contains(iv, e.cand) /\ e.cand = Sub3(e.loc, OfSeconds(e.off)), "zone_interval_used_for_the_offset_contains_the_instant")
          /\ IF e.iv.wall = e.off
             THEN /\ Check(~Has(e, "exc"), "zoned_from_local_and_the_zone_offset_must_not_raise")
                  /\ (Has(e, "res") => Check(Consistent(e.res) /\ Same(e.res, Mk(e.cand, e.off, e.cal)) /\ e.res_zone = e.zone,
@@ -63,7 +63,7 @@ Step(e) ==
          LET iv == [start |-> e.iv.start, end |-> e.iv.end, name |-> "", wall |-> e.iv.wall, std |-> 0, sav |-> 0]
              ni == Add3(e.v.inst, e.d)
          IN  IF ~InstantInRange(ni) THEN Check(Has(e, "exc"), "zoned_plus_out_of_range_must_raise")
-             ELSE /\ Check(Contains(iv, ni), "machinery_interval_contains_instant")
+             ELSE /\ Check(Contains(iv, ni), "zone_interval_used_for_the_offset_contains_the_instant")
                   /\ Check(~Has(e, "exc"), "zoned_plus_must_not_raise")
                   /\ (Has(e, "res") => Check(Consistent(e.res) /\ Same(e.res, Mk(ni, e.iv.wall, e.v.cal)) /\ e.res_zone = e.zone,
                                              "zoned_plus_moves_instant_exactly_and_rederives_offset"))
